@@ -94,3 +94,203 @@ SPECS.append(FucSpec(
     replay=gr_replay, cover=['none', 'list'],
     clause='every returned range (a,b) satisfies 0 <= a < b <= content_length; no exception but RangeUnsatisfiable escapes',
 ))
+
+
+# ----------------------------------------------------------------------------- Static._on_request
+from pyvc.contract import uf, noop  # noqa: E402
+
+SEP = z3.StringVal('/')
+
+
+def inside(docroot, loc):
+    """the statement's 'inside the document root': the root itself or a path below it"""
+    pre = z3.If(z3.SuffixOf(SEP, docroot), docroot, z3.Concat(docroot, SEP))
+    return z3.Or(loc == docroot, z3.PrefixOf(pre, loc))
+
+
+def _abspath(I, recv, args, kw):
+    """TRUSTED os.path.abspath: some normalised absolute path, a function of its argument only; nothing is assumed
+    about what '..' resolves to, except the two join lemmas below."""
+    I.st.trusted_used.add("os.path.abspath: uninterpreted; result is absolute ('/'-prefixed), has no trailing '/' unless it "
+                          "is '/', and contains no '/../' or '/./' component")
+    (a,) = args
+    r = core.fn('abspath', z3.StringSort(), z3.StringSort())(a.t)
+    I.assume(z3.PrefixOf(SEP, r))
+    I.assume(z3.Or(r == SEP, z3.Not(z3.SuffixOf(SEP, r))))
+    return VStr(r)
+
+
+def _join(I, recv, args, kw):
+    """TRUSTED os.path.join: uninterpreted per arity, with join(a,'') = a + '/' unless a ends with '/' and the plain-name
+    lemma abspath(join(d, p, name)) = abspath(join(d,p)) + '/' + name for a plain file name."""
+    I.st.trusted_used.add("os.path.join: uninterpreted; axioms: join(a,'') adds a trailing separator when missing; "
+                          "abspath(join(d,'')) == abspath(join(d,'.')) == abspath(d); "
+                          "abspath(join(d,p,name)) == abspath(join(d,p)) (+'/' unless root) + name for a plain name "
+                          "(no '/', not '', '.', '..')")
+    ts = [lib.unopt(I, a).t for a in args]
+    S = z3.StringSort()
+    f = core.fn('join_%d' % len(ts), *([S] * len(ts) + [S]))
+    r = f(*ts)
+    if len(ts) == 2:
+        ab = core.fn('abspath', S, S)
+        I.assume(z3.Implies(ts[1] == z3.StringVal(''), r == z3.If(z3.SuffixOf(SEP, ts[0]), ts[0], z3.Concat(ts[0], SEP))))
+        # join(d,'') and join(d,'.') denote d itself
+        I.assume(z3.Implies(z3.Or(ts[1] == z3.StringVal(''), ts[1] == z3.StringVal('.')), ab(r) == ab(ts[0])))
+    if len(ts) == 3:
+        ab = core.fn('abspath', S, S)
+        j2 = core.fn('join_2', S, S, S)(ts[0], ts[1])
+        base = ab(j2)
+        I.assume(z3.Implies(z3.Or(ts[1] == z3.StringVal(''), ts[1] == z3.StringVal('.')), ab(j2) == ab(ts[0])))
+        plain = z3.And(z3.Not(z3.Contains(ts[2], SEP)), ts[2] != z3.StringVal(''), ts[2] != z3.StringVal('.'),
+                       ts[2] != z3.StringVal('..'))
+        I.assume(z3.Implies(plain, ab(r) == z3.Concat(z3.If(z3.SuffixOf(SEP, base), base, z3.Concat(base, SEP)), ts[2])))
+    return VStr(r)
+
+
+def _dirname(I, recv, args, kw):
+    I.st.trusted_used.add("os.path.dirname: uninterpreted; dirname(x) is a prefix of x")
+    (a,) = args
+    r = core.fn('dirname', z3.StringSort(), z3.StringSort())(a.t)
+    I.assume(z3.PrefixOf(r, a.t))
+    return VStr(r)
+
+
+def _split(I, recv, args, kw):
+    (a,) = args
+    S = z3.StringSort()
+    return VTuple([VStr(core.fn('split_head', S, S)(a.t)), VStr(core.fn('split_tail', S, S)(a.t))])
+
+
+def st_setup(I):
+    self = obj(I, 'self', 'Static')
+    event = obj(I, 'event', 'Event')
+    request = obj(I, 'request', 'Request')
+    response = obj(I, 'response', 'Response')
+    docroot = I.fz(self, 'docroot')
+    I.st.inputs['docroot'] = docroot
+    # Static.__init__ stores os.path.abspath(docroot): normalised absolute
+    I.assume(z3.PrefixOf(SEP, docroot), 'requires docroot absolute (set by __init__ through abspath)')
+    I.assume(z3.Or(docroot == SEP, z3.Not(z3.SuffixOf(SEP, docroot))))
+    I.assume(core.fn('abspath', z3.StringSort(), z3.StringSort())(docroot) == docroot,
+             'requires docroot is already normalised (abspath is idempotent on it)')
+    # configuration precondition: default documents are plain file names
+    d = I.field(self, 'defaults')
+    i = core.fresh('di', z3.IntSort())
+    nm = z3.Select(d.arrs[0], i)
+    I.assume(z3.ForAll([i], z3.Implies(z3.And(d.lo <= i, i < d.hi), z3.And(
+        z3.Not(z3.Contains(nm, SEP)), nm != z3.StringVal(''), nm != z3.StringVal('.'), nm != z3.StringVal('..')))),
+        'requires defaults are plain file names')
+    I.assume(d.lo <= d.hi)
+    I.st.ghost['SERVED'] = []
+    I.st.ghost['LISTED'] = []
+    return {'self': self, 'event': event, 'request': request, 'response': response}
+
+
+def s_serve_file(I, recv, args, kw):
+    loc = args[2]
+    I.st.ghost['SERVED'].append(loc.t)
+    n = len(I.st.ghost['SERVED'])
+    self = I.local('self')
+    cover(I, 'serve_file')
+    I.oblige('serve_file.requires.inside_docroot', inside(I.fz(self, 'docroot'), loc.t),
+             detail='location handed to serve_file must lie inside the document root')
+    return obj_fresh(I, 'Response')
+
+
+def obj_fresh(I, cls):
+    return I.st.fresh_ref(cls)
+
+
+def s_listdir(I, recv, args, kw):
+    (d,) = args
+    self = I.local('self')
+    cover(I, 'listing')
+    I.oblige('listdir.requires.inside_docroot', inside(I.fz(self, 'docroot'), d.t),
+             detail='directory listed must lie inside the document root')
+    arr = core.fresh('listdir', z3.ArraySort(z3.IntSort(), z3.StringSort()))
+    n = core.fresh('nlist', z3.IntSort())
+    I.assume(n >= 0)
+    return VList(Str, [arr], z3.IntVal(0), n)
+
+
+def st_post(I, outcome, ctx):
+    kind, v = outcome
+    if kind == 'raise':
+        I.oblige('no_escape', z3.BoolVal(False), detail='escaping %s' % v.cls)
+        return
+    cover(I, 'return')
+
+
+STATIC_CALLS = {
+    'os.path.abspath': _abspath, 'os.path.join': _join, 'os.path.dirname': _dirname, 'os.path.split': _split,
+    'os.path.exists': uf('exists', Bool, 'os.path.exists/isfile/isdir: arbitrary booleans (file system state is unconstrained)'),
+    'os.path.isfile': uf('isfile', Bool), 'os.path.isdir': uf('isdir', Bool),
+    'unquote': uf('unquote', Str, 'urllib.parse.unquote: uninterpreted pure function'),
+    'quote': uf('quote', Str), 'escape': uf('escape', Str),
+    'serve_file': s_serve_file, 'os.listdir': s_listdir,
+    'response.cookie.clear': noop, 'event.stop': noop,
+    '_dirlisting_template.safe_substitute': lambda I, r, a, k: VStr(core.fresh('page', z3.StringSort())),
+}
+
+
+# request.path is a str, Static.path may be None: one heap field `path` of kind Opt(Str); request.path is constrained non-None
+def st_setup2(I):
+    a = st_setup(I)
+    rp = I.field(a['request'], 'path')
+    I.assume(z3.Not(rp.isnone), 'requires request.path is a str')
+    I.st.inputs['request.path'] = [rp.isnone, rp.val.t]
+    sp = I.field(a['self'], 'path')
+    I.st.inputs['self.path'] = [sp.isnone, sp.val.t]
+    return a
+
+
+def st_replay(model, ob):
+    # the counter-model fixes abspath/join only as uninterpreted functions; concretise by searching a small battery of
+    # hostile request paths on a real temporary directory tree, calling the real handler directly
+    return '''
+import os, sys, tempfile, shutil
+import circuits.web.dispatchers.static as S
+top = tempfile.mkdtemp(prefix='pyvc_c16_')
+try:
+    root = os.path.join(top, 'www'); os.makedirs(os.path.join(root, 'sub'))
+    os.makedirs(os.path.join(top, 'www2'))
+    for p, c in (('www/index.html', 'in'), ('www/sub/a.txt', 'a'), ('secret.txt', 'SECRET'), ('www2/s.txt', 'SIB')):
+        open(os.path.join(top, p), 'w').write(c)
+    served = []
+    S.serve_file = lambda req, res, loc, *a, **k: served.append(loc) or res
+    real_listdir = os.listdir
+    S.os.listdir = lambda d: served.append(d) or real_listdir(d)
+    class Obj: pass
+    bad = []
+    for mount in (None, '/static'):
+        comp = S.Static(path=mount, docroot=root, dirlisting=True)
+        for path in ['/', '/index.html', '/sub/a.txt', '/../secret.txt', '/../www2/s.txt', '/..', '/../', '/../www2',
+                     '/%2e%2e/secret.txt', '/sub/../../secret.txt', '/..%2fsecret.txt', '//../secret.txt']:
+            req = Obj(); req.path = (mount or '') + path
+            res = Obj(); res.cookie = {}
+            ev = Obj(); ev.stop = lambda: None
+            del served[:]
+            try:
+                S.Static._on_request(comp, ev, req, res)
+            except Exception as e:
+                print('exception', path, repr(e))
+            for loc in served:
+                if not (loc == root or loc.startswith(root + os.sep)):
+                    bad.append((mount, req.path, loc))
+    for b in bad: print('served/listed outside docroot %r: mount=%r path=%r location=%r' % (root, b[0], b[1], b[2]))
+    sys.exit(1 if bad else 0)
+finally:
+    shutil.rmtree(top, ignore_errors=True)
+'''
+
+
+SPECS.append(FucSpec(
+    'C16', 'circuits/web/dispatchers/static.py', 'Static._on_request', st_setup2, st_post, replay=st_replay,
+    fields={'path': Opt(Str), 'docroot': Str, 'defaults': List(Str), 'dirlisting': Bool},
+    calls=STATIC_CALLS,
+    loops={0: LoopSpec(inv=[('true', lambda I: z3.BoolVal(True))]),
+           1: LoopSpec(inv=[('true', lambda I: z3.BoolVal(True))], kinds={'listing': List(Str)})},
+    cover=['serve_file', 'listing', 'return'],
+    clause='every location handed to serve_file / os.listdir lies inside the document root, for every request path, '
+           'also when the handler is called directly (no front-end guard assumed)',
+))
